@@ -224,6 +224,10 @@ def gen_weights(rng: random.Random, kind, m):
         w = [rng.random() if rng.random() < 0.5 else 0.0 for _ in range(m)]
         if sum(w) == 0:
             w[rng.randrange(m)] = 1.0
+    elif kind == "tiny_tail":
+        # almost all mass in front, a strictly positive tail far below sqrt(eps): every tail index still has n*w_k expected copies
+        w = [10.0 ** rng.uniform(-12, -8.5) for _ in range(m)]
+        w[0] = 1.0
     elif kind == "equal":
         w = [1.0] * m
     elif kind == "dyadic":
@@ -436,7 +440,7 @@ def unbiased_sweep(run: Run, tier, rng):
     for t in range(reps):
         m = rng.choice([2, 3, 5, 9, 20])
         n = rng.choice([1, 2, 5, 16, 33])
-        w = gen_weights(rng, rng.choice(["dirichlet", "dominant", "zeros", "dyadic"]), m)
+        w = gen_weights(rng, rng.choice(["dirichlet", "dominant", "zeros", "dyadic", "tiny_tail"]) if t % 5 else "tiny_tail", m)
         bps = breakpoints(n, w)
         edges = [Fraction(0)] + [b for b in bps if 0 < b < 1] + [Fraction(1)]
         exp = [Fraction(0)] * m
@@ -458,7 +462,7 @@ def unbiased_sweep(run: Run, tier, rng):
             continue
         s = math.fsum(w)
         for k in range(m):
-            if abs(float(exp[k]) - n * w[k] / s) > 1e-6 * max(1, n):
+            if abs(float(exp[k]) - n * w[k] / s) > 1e-6 * n * w[k] / s + 1e-13 * max(1, n):
                 run.fail("biased", f"expected copies of index {k} is {float(exp[k])}, n*w={n * w[k] / s}", n=n,
                          w=[x.hex() for x in w], k=k)
                 break
@@ -484,7 +488,8 @@ def dispatch_check(run: Run, tier, rng):
             st.update_current({"u": u, "x": u * 10 + 1, "logl": np.arange(it * nper, (it + 1) * nper, dtype=float),
                                "beta": 0.1 * it, "logz": 0.0, "iter": it})
             st.commit_current_to_history()
-        st.set_current("beta", 0.5)
+        # the step resamples at every positive inverse temperature, however small (the first one of a sharp likelihood is 2^-14)
+        st.set_current("beta", [0.5, 2.0 ** -14, 1e-300, 1.0, 0.3, 2.0 ** -20][t % 6])
         w = np.array(gen_weights(rng, rng.choice(["dirichlet", "zeros", "dominant"]), N))
         for scheme in ("mult", "syst"):
             seed = rng.randrange(2 ** 31)
@@ -579,6 +584,12 @@ def search(run: Run):
         run.notes.append(f"multinomial tail search raised {type(e).__name__}: {e}")
     if run.failures:
         return
+    try:
+        unbiased_sweep(run, "quick", random.Random(4321))
+    except Exception as e:
+        run.notes.append(f"unbiasedness search raised {type(e).__name__}: {e}")
+    if run.failures:
+        return
     rng = random.Random(1234)
     for t in range(400):
         m = rng.choice([2, 3, 4, 6])
@@ -609,10 +620,12 @@ def main(tier, seed):
     rng = random.Random(seed)
     try:
         translate()
+        import c05
+        c05.translate()   # which iterations skip the resampling step (warm-up <=> beta == 0, the same test in train / resample / mutate)
         run.obligation("translate:tools.systematic_resample+Resampler.run", True)
     except Exception as e:  # fail closed: anything the translator cannot digest
         run.obligation("translate:tools.systematic_resample+Resampler.run", False, str(e))
-    run.prove("Props/C06.v", link_rels=["Link/Resample.v"], allowed_axioms=STDLIB_AXIOMS_REALS | STDLIB_AXIOMS_FLOATS)
+    run.prove("Props/C06.v", link_rels=["Link/Resample.v", "Link/Schedule.v"], allowed_axioms=STDLIB_AXIOMS_REALS | STDLIB_AXIOMS_FLOATS)
     try:
         correspond(run, tier, rng)
         unbiased_sweep(run, tier, rng)
